@@ -22,7 +22,8 @@ def main():
     if "--tier" in a: tier = a[a.index("--tier") + 1]
     if "--also" in a: also = a[a.index("--also") + 1].split(",")
     if "--skip-suite" in a: skip = True
-    dst = f"/verif/seeded/{pid}"
+    name = a[a.index("--name") + 1] if "--name" in a else pid
+    dst = f"/verif/seeded/{name}"
     os.makedirs(dst, exist_ok=True)
     for f in ("patch.diff", "demo.py", "notes.md"):
         if os.path.exists(f"{src}/{f}"):
